@@ -328,7 +328,7 @@ func c03GenRule(t *rapid.T, paths []string, names []string) []string {
 		return k
 	}
 	prefix := func(label string) string {
-		p := rapid.SampledFrom([]string{"d1", "d2", "d1/d2", "d1/", "x", "d2/d1"}).Draw(t, label)
+		p := rapid.SampledFrom([]string{"d1", "d2", "d1/d2", "d1/", "x", "d2/d1", "d1", "D1"}).Draw(t, label)
 		return p
 	}
 	pat := c03GenPattern(t, paths)
@@ -407,16 +407,28 @@ func c03GenArts(t *rapid.T, label string, paths []string) map[string]map[string]
 func c03Gen(t *rapid.T) c03Case {
 	// path universe: some top-level names, the same names below prefixes (plants the
 	// "same name outside the prefix" shape), and a few extras
-	base := rapid.SliceOfNDistinct(rapid.SampledFrom([]string{"a", "b", "c", "x.y", "ab"}), 1, 3, rapid.ID[string]).Draw(t, "base")
+	// (names that differ only in letter case, and names that continue a prefix without a directory
+	// boundary - "d1a", "d1x/a" next to the prefix "d1" - are part of the universe)
+	base := rapid.SliceOfNDistinct(rapid.SampledFrom([]string{"a", "b", "c", "x.y", "ab", "A", "a", "b"}), 1, 3, rapid.ID[string]).Draw(t, "base")
 	var paths []string
+	seen := map[string]bool{}
+	addPath := func(p string) {
+		if !seen[p] {
+			seen[p] = true
+			paths = append(paths, p)
+		}
+	}
 	for _, b := range base {
-		paths = append(paths, b)
-		for _, pre := range rapid.SliceOfNDistinct(rapid.SampledFrom([]string{"d1/", "d2/", "d1/d2/", "x/"}), 0, 2, rapid.ID[string]).Draw(t, "prefixes") {
-			paths = append(paths, pre+b)
+		addPath(b)
+		for _, pre := range rapid.SliceOfNDistinct(rapid.SampledFrom([]string{"d1/", "d2/", "d1/d2/", "x/", "d1/", "x/", "D1/", "d1", "d1x/"}), 0, 2, rapid.ID[string]).Draw(t, "prefixes") {
+			addPath(pre + b)
+			if pre == "d1x/" {
+				addPath("x/" + b)
+			}
 		}
 	}
 	sort.Strings(paths)
-	names := []string{"item", "dst", "other", "missing"}
+	names := []string{"item", "dst", "other", "missing", "dst", "Dst"}
 	c := c03Case{
 		ItemKind: rapid.SampledFrom([]string{"step", "inspection"}).Draw(t, "itemkind"),
 		Wrapper:  rapid.SampledFrom([]string{"legacy", "dsse"}).Draw(t, "wrapper"),
@@ -428,6 +440,76 @@ func c03Gen(t *rapid.T) c03Case {
 	}
 	if rapid.Bool().Draw(t, "hasother") {
 		c.Links["other"] = hx.RLink{Materials: c03GenArts(t, "om", paths), Products: c03GenArts(t, "op", paths)}
+	}
+	if rapid.IntRange(0, 3).Draw(t, "hascasevariant") == 0 {
+		c.Links["Dst"] = hx.RLink{Materials: c03GenArts(t, "cm", paths), Products: c03GenArts(t, "cp", paths)}
+	}
+	if rapid.IntRange(0, 2).Draw(t, "correlated") == 0 {
+		// the usual shape of a layout: MATCH against a destination whose artifacts are those of the item,
+		// moved from the source prefix to the destination prefix, followed by a closing rule. The move is
+		// done on the plain string (no directory boundary), so "d1a" lands where "d1/a" would: an
+		// implementation that takes a prefix for a string prefix finds matches the specification forbids.
+		src := rapid.SampledFrom([]string{"", "d1", "d1/", "x", "D1", "d1"}).Draw(t, "csrc")
+		dstp := rapid.SampledFrom([]string{"", "", "d2", "d1"}).Draw(t, "cdst")
+		side := rapid.SampledFrom([]string{"MATERIALS", "PRODUCTS"}).Draw(t, "cside")
+		onProducts := rapid.Bool().Draw(t, "conproducts")
+		from := c.Links["item"].Materials
+		if onProducts {
+			from = c.Links["item"].Products
+		}
+		moved := map[string]map[string]string{}
+		for _, p := range sortedArtKeys(from) {
+			rel := p
+			if sp := strings.TrimSuffix(src, "/"); sp != "" && strings.HasPrefix(p, sp) {
+				rel = strings.TrimPrefix(p[len(sp):], "/")
+			}
+			if rel == "" {
+				continue
+			}
+			h := from[p]
+			if rapid.IntRange(0, 4).Draw(t, "cperturb") == 0 {
+				h = map[string]string{"sha256": "ee"}
+			}
+			if dstp != "" {
+				rel = dstp + "/" + rel
+			}
+			moved[rel] = h
+		}
+		dst := hx.RLink{Materials: map[string]map[string]string{}, Products: map[string]map[string]string{}}
+		if side == "MATERIALS" {
+			dst.Materials = moved
+		} else {
+			dst.Products = moved
+		}
+		c.Links["dst"] = dst
+		rule := []string{"MATCH", rapid.SampledFrom([]string{"*", "*", "a", "?", "x/*"}).Draw(t, "cpat")}
+		if src != "" {
+			rule = append(rule, "IN", src)
+		}
+		rule = append(rule, "WITH", side)
+		if dstp != "" {
+			rule = append(rule, "IN", dstp)
+		}
+		rule = append(rule, "FROM", "dst")
+		rules := [][]string{rule}
+		if rapid.IntRange(0, 3).Draw(t, "cextra") == 0 {
+			rules = append([][]string{c03GenRule(t, paths, names)}, rules...)
+		}
+		switch rapid.IntRange(0, 4).Draw(t, "cclose") {
+		case 0, 1:
+			rules = append(rules, []string{"DISALLOW", "*"})
+		case 2:
+			rules = append(rules, []string{"DISALLOW", c03GenPattern(t, paths)})
+		case 3:
+			rules = append(rules, []string{"REQUIRE", rapid.SampledFrom(paths).Draw(t, "creq")})
+		}
+		c.MatRules, c.ProdRules = [][]string{}, [][]string{}
+		if onProducts {
+			c.ProdRules = rules
+		} else {
+			c.MatRules = rules
+		}
+		return c
 	}
 	nm := rapid.IntRange(0, 4).Draw(t, "nmat")
 	c.MatRules = [][]string{}
@@ -442,12 +524,21 @@ func c03Gen(t *rapid.T) c03Case {
 	return c
 }
 
+func sortedArtKeys(m map[string]map[string]string) []string {
+	out := make([]string, 0, len(m))
+	for k := range m {
+		out = append(out, k)
+	}
+	sort.Strings(out)
+	return out
+}
+
 func TestC03(t *testing.T) {
 	begin(t, "C03")
 	hx.Assume("reference interpreter written from the in-toto specification's rule algorithm; artifact names, patterns and prefixes are path-clean (the library cleans them as paths, the property defines no normalisation)")
 	ck := hx.Check[c03Case]{
 		Property: "C03", Part: "programs",
-		Rule:  "rapid-generated rule programs (all 7 types, 4 MATCH forms, keyword case variants, malformed rules) over nested artifact paths with same-named artifacts inside and outside prefixes, 1-2 hash algorithms, present/absent destination links, steps and inspections, both wrappers; non-trivial = removing one non-ALLOW rule changes the reference verdict; distinct by case JSON",
+		Rule:  "rapid-generated rule programs (all 7 types, 4 MATCH forms, keyword case variants, malformed rules) over nested artifact paths with same-named artifacts inside and outside prefixes, 1-2 hash algorithms, present/absent destination links, steps and inspections, both wrappers; names differing only in letter case and names continuing a prefix without a directory boundary; one third of the programs have the usual layout shape (MATCH against a destination holding the item's artifacts moved between prefixes, then a closing DISALLOW/REQUIRE); non-trivial = removing one non-ALLOW rule changes the reference verdict; distinct by case JSON",
 		Cases: hx.Pick(6000, 3000000),
 		Gen:   c03Gen, Run: c03Run,
 	}
